@@ -139,17 +139,18 @@ Definition sign_internal (fuel : nat) (ctest : bool) (P : Params) (sk : PrivateK
   zmodq <- mapM (mapM center_mod) z ;;
   sig_encode ctest P c_tilde zmodq h.
 
-Definition verify_internal (ctest : bool) (P : Params) (pk : PublicKey)
-  (m sig ctx oid phm : bytes) (nist : bool) : res bool :=
+(* everything verify_internal computes from the public key and the signature alone: the decoded
+   commitment hash, the encoding of the reconstructed commitment w'_1 and the norm test.  None =
+   the signature did not decode.  (The message, context and mode enter only through mu, below.) *)
+Definition verify_core (ctest : bool) (P : Params) (pk : PublicKey) (sig : bytes) : res (option (bytes * bytes * bool)) :=
   let gamma1 := p_gamma1 P in let gamma2 := p_gamma2 P in
   match sig_decode P sig with
-  | Err _ => Ok false
+  | Err _ => Ok None
   | Panic s => Panic s
   | OutOfFuel => OutOfFuel
   | Ok (c_tilde, z, h) =>
       zn <- infinity_norm z ;;
       _ <- guard (zn <=? gamma1) "Alg 8: i_norm out of range" ;;
-      let mu := mu_of (pk_tr pk) (mode_of nist oid phm) m ctx in
       c <- sample_in_ball H false (p_tau P) c_tilde ;;
       cap_a_hat <- expand_a H ctest P (pk_rho pk) ;;
       z_hat <- ntt z ;;
@@ -160,11 +161,19 @@ Definition verify_internal (ctest : bool) (P : Params) (pk : PublicKey)
       wp_approx <- inv_ntt diff ;;
       wp_1 <- map2M (map2M (use_hint gamma2)) h wp_approx ;;
       tmp <- w1_encode P wp_1 (p_w1_len P) ;;
-      let c_tilde_p := h256 (mu ++ tmp) (Z.to_nat (p_lambda_div4 P)) in
       zn2 <- infinity_norm z ;;
-      let left := zn2 <? gamma1 - p_beta P in
-      let right := list_eqb c_tilde c_tilde_p in
-      Ok (left && right)
+      Ok (Some (c_tilde, tmp, zn2 <? gamma1 - p_beta P))
+  end.
+
+Definition verify_internal (ctest : bool) (P : Params) (pk : PublicKey)
+  (m sig ctx oid phm : bytes) (nist : bool) : res bool :=
+  r <- verify_core ctest P pk sig ;;
+  match r with
+  | None => Ok false
+  | Some (c_tilde, tmp, norm_ok) =>
+      let mu := mu_of (pk_tr pk) (mode_of nist oid phm) m ctx in
+      let c_tilde_p := h256 (mu ++ tmp) (Z.to_nat (p_lambda_div4 P)) in
+      Ok (norm_ok && list_eqb c_tilde c_tilde_p)
   end.
 
 Definition expand_private (P : Params) (skb : bytes) : res PrivateKey :=
